@@ -133,7 +133,9 @@ pub fn classify(server: &Server, lanes: &[Lane]) -> Vec<TransferView> {
             open_at.push(open);
             let a = &log[sq];
             if let Some(p) = reply_packet(a) {
-                if p.code < 0x80 {
+                // (whatever the code: the handler fragments and caches an
+                // application's error reply like any other)
+                {
                     if let Some((_, more, _)) = block_opt(&p, CoapOption::Block2) {
                         if a.app.is_some() {
                             // a fresh response: it starts a transfer (which
@@ -561,6 +563,12 @@ pub fn check_c08(server: &Server, lane: &Lane, t: &TransferSpec, v: &TransferVie
         return false;
     };
     if !call.found {
+        return false;
+    }
+    if call.code >= 0x80 {
+        // the application answered with an error code: C08 speaks about the
+        // body of a (successful) response; C10 still watches the sizes
+        stats.hit("c08.out-of-premise.error-code-reply");
         return false;
     }
     let Some(ov) = a0.resp_overhead else { return false };
